@@ -1,7 +1,6 @@
 package checks
 
 import (
-	"context"
 	"fmt"
 	"math/rand"
 	"runtime"
@@ -196,8 +195,7 @@ func c09Corpus(c *vk.Ctx, i int) {
 			continue
 		}
 		// the complete match list with scores and index order; stored "v" identifies the model doc
-		it, _ := rd.Search(context.Background(), bluge.NewAllMatches(q.ToBluge()))
-		full, _ := bx.Collect(it, true)
+		full, _, _ := bx.SafeCollect(rd, bluge.NewAllMatches(q.ToBluge()), true)
 		var ref []*refHit
 		for hi, h := range full {
 			var d *model.Doc
